@@ -210,7 +210,7 @@ PROPS['C07'] = dict(
     rule='mutated / truncated / structured-random FEN-like text and arbitrary Unicode through BoardBuilder::from_str and Board::from_str; arbitrary builder states (any piece anywhere, several kings, junk rights and en-passant file) and crowded boards (up to 55 men) through TryFrom; every accepted board goes through move generation, status, rendering and both move applications two plies deep; release build under catch_unwind and debug-assertion build (unchecked index / push past capacity abort the process there); distinct = distinct accepted inputs',
 )
 PROPS['C10'] = dict(
-    coq_targets=[],
+    coq_targets=['Proofs/GameBase.vo', 'Proofs/GameThreefold.vo', 'Proofs/GameScan.vo', 'Proofs/GameProtocol.vo', 'Proofs/GameClaims.vo', 'Proofs/GameExamples.vo'],
     scope='see theorem list',
     streams=lambda tier: [dict(stages=[H('game', sz(tier, 150, 20000), 'mix'), D('game')], shards=16, min_stat={'game_ops': 5000})],
     tags=['game_.*', 'oracle_game_.*'] + COMMON_MODEL_TAGS,
@@ -218,7 +218,7 @@ PROPS['C10'] = dict(
     rule='random interleavings of legal / illegal / random move attempts, draw offers by either colour, accepts, resignations and draw declarations from ongoing, near-terminal and already-finished start positions; every return value and result / side_to_move / can_declare_draw / log length after every step; distinct = distinct games with at least two accepted actions',
 )
 PROPS['C11'] = dict(
-    coq_targets=[],
+    coq_targets=['Proofs/GameBase.vo', 'Proofs/GameThreefold.vo', 'Proofs/GameScan.vo', 'Proofs/GameProtocol.vo', 'Proofs/GameClaims.vo', 'Proofs/GameExamples.vo'],
     scope='see theorem list',
     streams=lambda tier: [
         dict(stages=[H('game', sz(tier, 5, 300), 'draw'), D('game')], shards=16, min_stat={'games_with_threefold': 3, 'games_with_fifty': 3}),
